@@ -211,6 +211,10 @@ func zzH_C07_output() {
 		order = append(order, k)
 		t.selectItem(items[k])
 	}
+	if ns > 0 && zzv.Bool() {
+		// selecting an already selected line again (as select-all does) keeps its place
+		t.selectItem(items[order[0]])
+	}
 	t.cy = zzv.Choose(0, 2)
 	found := t.output()
 	zzv.Reach("called")
